@@ -74,7 +74,66 @@ type Tree struct {
 	N    int       `json:"n,omitempty"`   // buffer size / channel variant
 	G    int       `json:"g,omitempty"`   // expansion function id
 	Ls   [][]int64 `json:"ls,omitempty"`  // MergeSlices
+	Nulls []bool   `json:"nulls,omitempty"` // jsonarr: element i of L is the JSON null
+	Recs  []*JRec  `json:"recs,omitempty"`  // jsonrecs: nil = the JSON null
 	Kids []*Tree   `json:"kids,omitempty"`
+}
+
+// JRec is one element of a JSON array of objects with optional fields a and b.
+type JRec struct {
+	A *int64 `json:"a,omitempty"`
+	B *int64 `json:"b,omitempty"`
+}
+
+// the element type the array of objects is decoded into
+type jrecT struct {
+	A int64 `json:"a,omitempty"`
+	B int64 `json:"b,omitempty"`
+}
+
+func jsonArrBytes(t *Tree) []byte {
+	parts := make([]string, len(t.L))
+	for i, v := range t.L {
+		parts[i] = fmt.Sprint(v)
+		if i < len(t.Nulls) && t.Nulls[i] {
+			parts[i] = "null"
+		}
+	}
+	sep := ","
+	if t.N == 1 {
+		sep = " ,\n "
+	}
+	return []byte("[" + strings.Join(parts, sep) + "]")
+}
+
+func jsonRecsBytes(t *Tree) []byte {
+	parts := make([]string, len(t.Recs))
+	for i, r := range t.Recs {
+		switch {
+		case r == nil:
+			parts[i] = "null"
+		default:
+			f := []string{}
+			if r.B != nil && t.N == 1 { // field order must not matter
+				f = append(f, fmt.Sprintf(`"b":%d`, *r.B))
+			}
+			if r.A != nil {
+				f = append(f, fmt.Sprintf(`"a":%d`, *r.A))
+			}
+			if r.B != nil && t.N != 1 {
+				f = append(f, fmt.Sprintf(`"b":%d`, *r.B))
+			}
+			parts[i] = "{" + strings.Join(f, ",") + "}"
+		}
+	}
+	return []byte("[" + strings.Join(parts, ",") + "]")
+}
+
+func dflt(p *int64) int64 {
+	if p == nil {
+		return 0
+	}
+	return *p
 }
 
 type Case struct {
@@ -391,6 +450,18 @@ func (e *env) build(t *Tree) *fun.Iterator[int64] {
 			e.notes = append(e.notes, "unmarshal-error:"+err.Error())
 		}
 		return e.reg(base)
+	case "jsonarr":
+		base := fun.SliceIterator([]int64{})
+		if err := base.UnmarshalJSON(jsonArrBytes(t)); err != nil {
+			e.notes = append(e.notes, "unmarshal-error:"+err.Error())
+		}
+		return e.reg(base)
+	case "jsonrecs":
+		base := fun.SliceIterator([]jrecT{})
+		if err := base.UnmarshalJSON(jsonRecsBytes(t)); err != nil {
+			e.notes = append(e.notes, "unmarshal-error:"+err.Error())
+		}
+		return e.reg(fun.ConvertIterator(base, fun.Converter(func(r jrecT) int64 { return r.A*100 + r.B })))
 	case "listof":
 		l := &dt.List[int64]{}
 		_ = l.Populate(kids[0]).Run(e.ctx)
@@ -665,6 +736,21 @@ func specOf(t *Tree) spec {
 		for _, l := range t.Ls {
 			out.vals = append(out.vals, l...)
 		}
+	case "jsonarr": // every element decoded on its own: null is the zero value
+		for i, v := range t.L {
+			if i < len(t.Nulls) && t.Nulls[i] {
+				v = 0
+			}
+			out.vals = append(out.vals, v)
+		}
+	case "jsonrecs": // null and absent fields are zero
+		for _, r := range t.Recs {
+			if r == nil {
+				out.vals = append(out.vals, 0)
+			} else {
+				out.vals = append(out.vals, dflt(r.A)*100+dflt(r.B))
+			}
+		}
 	case "mergesliceiters":
 		for _, v := range ks[0].vals {
 			out.vals = append(out.vals, expand(t.G, v)...)
@@ -716,7 +802,7 @@ var opName = map[string]string{
 	"filter": "Filter", "transform": "Transform", "join": "Join", "chain": "Chain", "buffer": "Buffer",
 	"split1": "Split", "channel": "Channel", "uniq": "Uniq", "dropzero": "DropZeroValues", "indexed": "Indexed",
 	"mergeslices": "MergeSlices", "mergesliceiters": "MergeSliceIterators", "json": "JSON", "listof": "List",
-	"stackof": "Stack", "sliceof": "Slice",
+	"stackof": "Stack", "sliceof": "Slice", "jsonarr": "UnmarshalJSON", "jsonrecs": "UnmarshalJSON",
 }
 
 // readAllFails reports whether a plain ReadOne drain of t on the real code differs from the oracle.
@@ -836,6 +922,14 @@ func oracle(run *kit.Run, c Case, o Obs) {
 		}
 		fail("C02:"+op+":"+cls, fmt.Sprintf("%s: implementation yielded %v (end %s), functional specification %v (end %s)", what, o.Vals, o.Fin, s.vals, s.fin))
 	}
+	// a terminal's wrong result is blamed on the operator whose own sequence is already wrong, if any
+	blame := func(sig, detail string) {
+		if sub, _ := culprit(c.Tree); sub != nil {
+			seqFail("sequence")
+			return
+		}
+		fail(sig, detail)
+	}
 	switch c.Term {
 	case "readall", "next":
 		if !eqI64(o.Vals, s.vals) {
@@ -858,7 +952,7 @@ func oracle(run *kit.Run, c Case, o Obs) {
 		}
 	case "count":
 		if o.Res != int64(len(s.vals)) {
-			fail("C02:Count:length", fmt.Sprintf("Count = %d, specification sequence %v has length %d", o.Res, s.vals, len(s.vals)))
+			blame("C02:Count:length", fmt.Sprintf("Count = %d, specification sequence %v has length %d", o.Res, s.vals, len(s.vals)))
 			return
 		}
 		if !eqInts(o.Close, closeWant) {
@@ -866,7 +960,7 @@ func oracle(run *kit.Run, c Case, o Obs) {
 		}
 	case "slice":
 		if !eqI64(o.Vals, s.vals) {
-			fail("C02:Slice:sequence", fmt.Sprintf("Slice = %v, specification %v", o.Vals, s.vals))
+			blame("C02:Slice:sequence", fmt.Sprintf("Slice = %v, specification %v", o.Vals, s.vals))
 			return
 		}
 		want := map[int]bool{}
@@ -887,7 +981,7 @@ func oracle(run *kit.Run, c Case, o Obs) {
 			}
 		}
 		if o.Res != want {
-			fail("C02:Contains:membership", fmt.Sprintf("Contains(%d) = %d, specification sequence %v", c.X, o.Res, s.vals))
+			blame("C02:Contains:membership", fmt.Sprintf("Contains(%d) = %d, specification sequence %v", c.X, o.Res, s.vals))
 		}
 	case "reduce":
 		v, e := foldSpec(c.Red, s.vals)
@@ -899,7 +993,7 @@ func oracle(run *kit.Run, c Case, o Obs) {
 			got = []int{}
 		}
 		if o.Res != v || !eqInts(got, e) {
-			fail("C02:Reduce:fold", fmt.Sprintf("Reduce = (%d, ids %v), fold over %v = (%d, ids %v)", o.Res, got, s.vals, v, e))
+			blame("C02:Reduce:fold", fmt.Sprintf("Reduce = (%d, ids %v), fold over %v = (%d, ids %v)", o.Res, got, s.vals, v, e))
 		}
 	}
 	if len(gotJSON) == len(s.jsons) {
@@ -1004,6 +1098,31 @@ func coqTree(t *Tree) string {
 		return "StackOf " + kid(0)
 	case "sliceof":
 		return "SliceOf " + kid(0)
+	case "jsonarr":
+		s := make([]string, len(t.L))
+		for i, v := range t.L {
+			s[i] = "Some " + kit.Z(v)
+			if i < len(t.Nulls) && t.Nulls[i] {
+				s[i] = "None"
+			}
+		}
+		return "JsonArr " + kit.List(s)
+	case "jsonrecs":
+		opt := func(p *int64) string {
+			if p == nil {
+				return "None"
+			}
+			return "Some " + kit.Z(*p)
+		}
+		s := make([]string, len(t.Recs))
+		for i, r := range t.Recs {
+			if r == nil {
+				s[i] = "None"
+			} else {
+				s[i] = fmt.Sprintf("Some (%s, %s)", opt(r.A), opt(r.B))
+			}
+		}
+		return "JsonRecs " + kit.List(s)
 	}
 	panic("unknown op " + t.Op)
 }
@@ -1095,8 +1214,51 @@ func genList(r *kit.Rand) []int64 {
 	return l
 }
 
+func genJSONArr(r *kit.Rand) *Tree {
+	l := genList(r)
+	t := &Tree{Op: "jsonarr", L: l, Nulls: make([]bool, len(l)), N: r.Intn(2)}
+	for i := range l {
+		t.Nulls[i] = r.Chance(1, 3)
+	}
+	if len(l) > 0 && r.Chance(1, 4) { // null at a boundary, after a non-zero element
+		i := []int{0, len(l) - 1, len(l) / 2}[r.Intn(3)]
+		t.Nulls[i] = true
+		if i > 0 && l[i-1] == 0 {
+			l[i-1] = int64(r.Range(1, 5))
+			t.Nulls[i-1] = false
+		}
+	}
+	return t
+}
+
+func genJSONRecs(r *kit.Rand) *Tree {
+	n := r.Intn(7)
+	t := &Tree{Op: "jsonrecs", N: r.Intn(2)}
+	for i := 0; i < n; i++ {
+		if r.Chance(1, 4) {
+			t.Recs = append(t.Recs, nil)
+			continue
+		}
+		rec := &JRec{}
+		if r.Chance(1, 2) {
+			v := int64(r.Range(0, 5))
+			rec.A = &v
+		}
+		if r.Chance(1, 2) {
+			v := int64(r.Range(-2, 5))
+			rec.B = &v
+		}
+		t.Recs = append(t.Recs, rec)
+	}
+	return t
+}
+
 func genSource(r *kit.Rand) *Tree {
-	switch r.Intn(7) {
+	switch r.Intn(9) {
+	case 7:
+		return genJSONArr(r)
+	case 8:
+		return genJSONRecs(r)
 	case 0, 1:
 		return &Tree{Op: "slice", L: genList(r), N: r.Intn(2)}
 	case 2:
@@ -1300,6 +1462,30 @@ func corpus() []Case {
 	add(&Tree{Op: "dropzero", Kids: []*Tree{sl(0, 0, 1, 0, 2, 0)}}, "readall")
 	add(&Tree{Op: "indexed", Kids: []*Tree{sl(5, 5, -1, 0)}}, "readall")
 	add(&Tree{Op: "stackof", Kids: []*Tree{sl(1, 2, 3)}}, "readall")
+	// JSON arrays: null at every position (first, middle, last, consecutive, all), zeros, duplicates
+	ja := func(l []int64, nulls ...int) *Tree {
+		t := &Tree{Op: "jsonarr", L: l, Nulls: make([]bool, len(l))}
+		for _, i := range nulls {
+			t.Nulls[i] = true
+		}
+		return t
+	}
+	for i := 0; i < 4; i++ {
+		add(ja([]int64{1, 2, 3, 4}, i), "readall")
+		add(ja([]int64{5, 5, 0, 5}, i), "next")
+	}
+	add(ja([]int64{1, 2, 3, 4}, 1, 2), "readall")
+	add(ja([]int64{1, 2, 3, 4}, 2, 3), "slice")
+	add(ja([]int64{1, 2, 3, 4}, 0, 1, 2, 3), "readall")
+	add(ja([]int64{0, 0, 7, 0}, 3), "readall")
+	add(ja([]int64{}), "readall")
+	add(ja([]int64{9}, 0), "count")
+	add(&Tree{Op: "uniq", Kids: []*Tree{{Op: "join", Kids: []*Tree{ja([]int64{3, 0, 3}, 1), ja([]int64{4, 4}, 1)}}}}, "readall")
+	pi := func(v int64) *int64 { return &v }
+	add(&Tree{Op: "jsonrecs", Recs: []*JRec{{A: pi(1)}, {B: pi(2)}, nil, {}, {A: pi(3), B: pi(4)}, {}}}, "readall")
+	add(&Tree{Op: "jsonrecs", N: 1, Recs: []*JRec{{A: pi(1), B: pi(1)}, nil, {B: pi(0)}, {A: pi(0)}}}, "readall")
+	add(&Tree{Op: "jsonrecs", Recs: []*JRec{nil, nil}}, "slice")
+	add(&Tree{Op: "jsonrecs"}, "readall")
 	add(&Tree{Op: "json", Kids: []*Tree{{Op: "filter", Pred: &Pred{Tbl: []int64{2}, Neg: true}, Kids: []*Tree{{Op: "buffer", N: 2, Kids: []*Tree{{Op: "join", Kids: []*Tree{sl(1, 2), {Op: "json", Kids: []*Tree{sl(-3, 2, 0)}}}}}}}}}}, "readall")
 	for i := range cs {
 		cs[i].ID = i
